@@ -25,6 +25,12 @@ def configs(tier, seed):
                     continue
                 cfgs.append(dict(n=n, K=K, nq=nq, part=list(part), branch=branch, weight=10 ** n * 4 ** nq,
                                  wstride=11 if n <= 3 else (197 if n == 4 else 9001)))
+    # training samples and queries standing for permuted rows of a larger table (Node.idx != position)
+    for n, K, ids in ([(3, 2, [3, 0, 2, 1])] if tier == "quick" else [(3, 2, [3, 0, 2, 1]), (3, 3, [1, 4, 0, 2]), (4, 2, [2, 5, 0, 3, 1])]):
+        for part in sup.partitions(n, 2, K):
+            for branch in ("pre", "fn"):
+                cfgs.append(dict(n=n, K=K, nq=1, part=list(part), branch=branch, ids=ids, weight=10 ** n * 4,
+                                 wstride=11 if n <= 3 else 197))
     # semi-supervised predict is inherited: exercised on a forest that contains unlabeled samples
     for n, nu in ([(2, 1)] if tier == "quick" else [(2, 1), (2, 2), (3, 1)]):
         for part in sup.partitions(n, 2, 2):
